@@ -191,6 +191,40 @@ MOS.append(MO("O1.9/seq_allocation", "sequence allocation: next_wal_seq.fetch_ad
               seq_allocation, functions=[("hnsw_backend.rs", f) for f in ("insert", "delete", "update_metadata", "batch_delete")]))
 
 
+def _seq_resume(F):
+    from props.C02 import seq_resume
+    return seq_resume(F)
+
+
+def _replay_applies(F):
+    from props.C02 import replay_applies
+    return replay_applies(F)
+
+
+MOS.append(MO("O1.10/seq_resume", "recover: the sequence counter resumes above every sequence number the snapshot or the log has seen (max over snapshot.last_wal_seq and every entry, + 1), so a write acknowledged after a restart is "
+              "never numbered at or below the snapshot's cut-off and skipped as 'covered' by the next recovery (same obligation as C02 O2.3)",
+              _seq_resume, functions=[("hnsw_backend.rs", "recover_with_hnsw_params_and_mode")]))
+MOS.append(MO("O1.10/replay_applies", "recover: every logged entry that is not covered by the snapshot takes effect on the rebuilt collection (same obligation as C02 O2.7)",
+              _replay_applies, functions=[("hnsw_backend.rs", "recover_with_hnsw_params_and_mode")]))
+
+
+def _shared(name):
+    def run(F):
+        import props.C02 as C02
+        return getattr(C02, name)(F)
+    return run
+
+
+MOS.append(MO("O1.10/replay_skip", "recover: an entry is skipped only if the loaded snapshot covers it — every entry newer than the snapshot is applied (DECIDES; same obligation as C02 O2.1)",
+              _shared("replay_skip"), functions=[("hnsw_backend.rs", "recover_with_hnsw_params_and_mode")]))
+MOS.append(MO("O1.10/compaction", "compact_old_wal_segments: every entry replay would still apply keeps its segment; a segment is unlinked only if all its entries are covered (DECIDES; same obligations as C02 O2.2)",
+              lambda F: list(_as_list(_shared("compaction_entry")(F))) + list(_as_list(_shared("compaction_segment")(F))), functions=[("hnsw_backend.rs", "compact_old_wal_segments")]))
+
+
+def _as_list(r):
+    return r if isinstance(r, list) else [r]
+
+
 def _o15_decisions(F):
     from vlib import mirdec as MD
     out = []
